@@ -307,4 +307,236 @@ theorem run_rows_length (evs : List Events) : ∀ s : Sim,
       rw [h1, h2, hlen, hti, List.length_cons]
       omega
 
+/-! ### Population flow: who is active, alive, and counted dead -/
+
+/-- between steps: every active agent is alive with no death pending -/
+def Clean (a : Agent) : Prop := a.present = true → a.alive = true ∧ a.pDead = none
+/-- inside step `ti`, before deaths are resolved: every active agent is alive; a pending death was requested in this step -/
+def Fresh (ti : Nat) (a : Agent) : Prop :=
+  a.present = true → a.alive = true ∧ (a.pDead = none ∨ a.pDead = some (ti : Rat))
+
+def nPresent (pop : List Agent) : Nat := countActive (fun _ => true) pop
+
+theorem countActive_map (f : Agent → Agent) (p p' : Agent → Bool)
+    (h : ∀ a, ((f a).present && p (f a)) = (a.present && p' a)) (l : List Agent) :
+    countActive p (l.map f) = countActive p' l := by
+  induction l with
+  | nil => rfl
+  | cons a l ih => rw [List.map_cons, countActive_cons, countActive_cons, ih, h]
+
+theorem countActive_mapIdx (p p' : Agent → Bool) (l : List Agent) : ∀ (f : Nat → Agent → Agent),
+    (∀ i a, ((f i a).present && p (f i a)) = (a.present && p' a)) →
+    countActive p (l.mapIdx f) = countActive p' l := by
+  induction l with
+  | nil => intro f _; rfl
+  | cons a l ih =>
+      intro f h
+      rw [List.mapIdx_cons, countActive_cons, countActive_cons, ih (fun i => f (i + 1)) (fun i a => h (i + 1) a), h]
+
+theorem nPresent_append_newborns (l : List Agent) (n : Nat) :
+    nPresent (l ++ List.replicate n newborn) = nPresent l + n := by
+  induction l with
+  | nil =>
+      induction n with
+      | zero => rfl
+      | succ k ih =>
+          simp only [List.nil_append] at ih ⊢
+          rw [List.replicate_succ]
+          unfold nPresent at ih ⊢
+          rw [countActive_cons, ih]
+          simp [newborn]; omega
+  | cons a l ih =>
+      unfold nPresent at ih ⊢
+      rw [List.cons_append, countActive_cons, countActive_cons, ih]; omega
+
+theorem due_self (ti : Nat) : due (some (ti : Rat)) ti = true := by simp [due]
+theorem isNow_self (ti : Nat) : isNow (some (ti : Rat)) ti = true := by simp [isNow]
+
+/-- demographics: births join, death requests are stamped with this step -/
+theorem demographics_fresh (ev : Events) (s : Sim) (h : ∀ a ∈ s.pop, Clean a) :
+    (∀ a ∈ (demographicsPhase ev s).pop, Fresh s.ti a) ∧
+    nPresent (demographicsPhase ev s).pop = nPresent s.pop + ev.births := by
+  constructor
+  · intro a ha
+    simp only [demographicsPhase] at ha
+    rw [List.mem_mapIdx] at ha
+    obtain ⟨i, hi, rfl⟩ := ha
+    have hmem : (s.pop ++ List.replicate ev.births newborn)[i] ∈ s.pop ++ List.replicate ev.births newborn :=
+      List.getElem_mem _
+    have hc : Clean (s.pop ++ List.replicate ev.births newborn)[i] := by
+      rcases List.mem_append.mp hmem with h1 | h1
+      · exact h _ h1
+      · rw [(List.mem_replicate.mp h1).2]; intro _; exact ⟨rfl, rfl⟩
+    by_cases hb : i ∈ ev.background
+    · simp only [hb, if_true]; intro hp; exact ⟨(hc hp).1, Or.inr rfl⟩
+    · simp only [hb, if_false]; intro hp; exact ⟨(hc hp).1, Or.inl (hc hp).2⟩
+  · simp only [demographicsPhase, nPresent]
+    rw [countActive_mapIdx (fun _ => true) (fun _ => true)]
+    · exact nPresent_append_newborns _ _
+    · intro i a; by_cases hb : i ∈ ev.background <;> simp [hb, requestDeath]
+
+theorem stepStateAgent_core (ti : Nat) (a : Agent) :
+    (stepStateAgent ti a).present = a.present ∧ (stepStateAgent ti a).alive = a.alive ∧
+    ((stepStateAgent ti a).pDead = a.pDead ∨ (stepStateAgent ti a).pDead = some (ti : Rat)) := by
+  unfold stepStateAgent
+  by_cases hd : due a.tm.ti_dead ti = true
+  · simp [hd, requestDeath]
+  · simp [hd]
+
+theorem stepState_fresh (s : Sim) (h : ∀ a ∈ s.pop, Fresh s.ti a) :
+    (∀ a ∈ (stepStatePhase s).pop, Fresh s.ti a) ∧ nPresent (stepStatePhase s).pop = nPresent s.pop := by
+  constructor
+  · intro a ha
+    simp only [stepStatePhase, mapActive, List.mem_map] at ha
+    obtain ⟨b, hb, rfl⟩ := ha
+    by_cases hp : b.present = true
+    · simp only [hp, if_true]
+      obtain ⟨h1, h2, h3⟩ := stepStateAgent_core s.ti b
+      intro hp'
+      rw [h1] at hp'
+      obtain ⟨ha, hd⟩ := h b hb hp'
+      refine ⟨by rw [h2]; exact ha, ?_⟩
+      rcases h3 with h3 | h3
+      · rw [h3]; exact hd
+      · exact Or.inr h3
+    · simp only [hp]; exact h b hb
+  · simp only [stepStatePhase, mapActive, nPresent]
+    apply countActive_map
+    intro a
+    by_cases hp : a.present = true
+    · simp only [hp, if_true, (stepStateAgent_core s.ti a).1]
+    · simp [hp]
+
+theorem infectAgent_core (ti : Nat) (call : List Inf) (i : Nat) (a : Agent) :
+    (infectAgent ti call i a).present = a.present ∧ (infectAgent ti call i a).alive = a.alive ∧
+    (infectAgent ti call i a).pDead = a.pDead := by
+  unfold infectAgent; cases findInf call i <;> exact ⟨rfl, rfl, rfl⟩
+
+theorem infectFold_fresh (ti t : Nat) (calls : List (List Inf)) : ∀ (pop : List Agent) (bad : Bool),
+    (∀ a ∈ pop, Fresh t a) →
+    (∀ a ∈ (calls.foldl (infectCall ti) (pop, bad)).1, Fresh t a) ∧
+    nPresent (calls.foldl (infectCall ti) (pop, bad)).1 = nPresent pop := by
+  induction calls with
+  | nil => intro pop bad h; exact ⟨h, rfl⟩
+  | cons c cs ih =>
+      intro pop bad h
+      simp only [List.foldl_cons, infectCall]
+      have hf : ∀ a ∈ pop.mapIdx (infectAgent ti c), Fresh t a := by
+        intro a ha
+        rw [List.mem_mapIdx] at ha
+        obtain ⟨i, hi, rfl⟩ := ha
+        obtain ⟨h1, h2, h3⟩ := infectAgent_core ti c i pop[i]
+        intro hp; rw [h1] at hp
+        have := h _ (List.getElem_mem hi) hp
+        rw [h2, h3]; exact this
+      obtain ⟨r1, r2⟩ := ih (pop.mapIdx (infectAgent ti c)) (bad || !callAdmissible pop c) hf
+      refine ⟨r1, ?_⟩
+      rw [r2]
+      unfold nPresent
+      apply countActive_mapIdx
+      intro i a; rw [(infectAgent_core ti c i a).1]
+
+theorem infect_fresh (ev : Events) (s : Sim) (h : ∀ a ∈ s.pop, Fresh s.ti a) :
+    (∀ a ∈ (infectPhase ev s).pop, Fresh s.ti a) ∧ nPresent (infectPhase ev s).pop = nPresent s.pop :=
+  infectFold_fresh s.ti s.ti ev.infections s.pop s.bad h
+
+/-- resolving deaths: alive + counted dead = active -/
+theorem die_account (ti : Nat) (pop : List Agent) (h : ∀ a ∈ pop, Fresh ti a) :
+    countActive (·.alive) (mapActive (dieAgent ti) pop) + countActive (fun a => isNow a.pDead ti) (mapActive (dieAgent ti) pop)
+      = nPresent pop := by
+  induction pop with
+  | nil => rfl
+  | cons a l ih =>
+      have hl := ih (fun b hb => h b (List.mem_cons_of_mem _ hb))
+      have ha := h a (List.mem_cons_self ..)
+      unfold nPresent at hl ⊢
+      simp only [mapActive, List.map_cons] at hl ⊢
+      rw [countActive_cons, countActive_cons, countActive_cons]
+      by_cases hp : a.present = true
+      · obtain ⟨hal, hd⟩ := ha hp
+        simp only [hp, if_true]
+        rcases hd with hd | hd
+        · have h0 : dieAgent ti a = a := by unfold dieAgent; simp [hd, due]
+          have h4 : isNow a.pDead ti = false := by rw [hd]; rfl
+          rw [h0, hp, hal, h4]
+          simp only [Bool.and_self, Bool.and_false, if_true, Bool.false_eq_true, if_false]
+          omega
+        · have h1 : (dieAgent ti a).alive = false := by unfold dieAgent; simp [hd, due_self]
+          have h2 : isNow (dieAgent ti a).pDead ti = true := by unfold dieAgent; simp [hd, due_self, isNow_self]
+          have h3 : (dieAgent ti a).present = true := by unfold dieAgent; simp [hd, due_self, hp]
+          rw [h1, h2, h3]
+          simp only [Bool.and_self, Bool.and_false, if_true, Bool.false_eq_true, if_false]
+          omega
+      · have hp' : a.present = false := by cases h : a.present <;> simp_all
+        simp only [hp', Bool.false_eq_true, if_false, Bool.false_and]
+        omega
+
+/-- what the transmission phase hands to death resolution -/
+def prePop (s : Sim) (ev : Events) : List Agent := (infectPhase ev (stepStatePhase (demographicsPhase ev s))).pop
+
+theorem midPop_eq (s : Sim) (ev : Events) : midPop s ev = mapActive (dieAgent s.ti) (prePop s ev) := rfl
+
+theorem prePop_fresh (s : Sim) (ev : Events) (h : ∀ a ∈ s.pop, Clean a) :
+    (∀ a ∈ prePop s ev, Fresh s.ti a) ∧ nPresent (prePop s ev) = nPresent s.pop + ev.births := by
+  obtain ⟨d1, d2⟩ := demographics_fresh ev s h
+  obtain ⟨s1, s2⟩ := stepState_fresh (demographicsPhase ev s) d1
+  obtain ⟨i1, i2⟩ := infect_fresh ev (stepStatePhase (demographicsPhase ev s)) s1
+  exact ⟨i1, by rw [prePop, i2, s2, d2]⟩
+
+/-- **Population flow of one step.** If between steps every active agent is alive with no death pending, then the row
+    recorded in the step satisfies `n_alive + new_deaths = active before + births`, the number of active agents after
+    the step is the recorded `n_alive`, and the condition holds again afterwards. -/
+theorem simStep_flow (s : Sim) (ev : Events) (h : ∀ a ∈ s.pop, Clean a) :
+    ∃ r : Row, (simStep s ev).rows = s.rows ++ [r] ∧
+      r.nAlive + r.newDeaths = nPresent s.pop + ev.births ∧
+      nPresent (simStep s ev).pop = r.nAlive ∧
+      ∀ a ∈ (simStep s ev).pop, Clean a := by
+  obtain ⟨r, hr, _, hA, _, _, _, hD, _⟩ := simStep_rows s ev
+  obtain ⟨hf, hn⟩ := prePop_fresh s ev h
+  refine ⟨r, hr, ?_, ?_, ?_⟩
+  · rw [hA, hD, midPop_eq, die_account s.ti _ hf, hn]
+  · rw [simStep_pop, hA]
+    unfold nPresent
+    apply countActive_map
+    intro a; simp
+  · intro a ha
+    rw [simStep_pop, midPop_eq] at ha
+    obtain ⟨b, hb, rfl⟩ := List.mem_map.mp ha
+    simp only [mapActive, List.mem_map] at hb
+    obtain ⟨c, hc, rfl⟩ := hb
+    intro hp
+    simp only [Bool.and_eq_true] at hp
+    by_cases hcp : c.present = true
+    · simp only [hcp, if_true] at hp ⊢
+      obtain ⟨hal, hd⟩ := hf c hc hcp
+      rcases hd with hd | hd
+      · have h0 : dieAgent s.ti c = c := by unfold dieAgent; simp [hd, due]
+        rw [h0]; exact ⟨hal, hd⟩
+      · have h1 : (dieAgent s.ti c).alive = false := by unfold dieAgent; simp [hd, due_self]
+        rw [h1] at hp; exact absurd hp.2 (by decide)
+    · simp only [hcp] at hp
+      exact absurd hp.1 hcp
+
+/-- **Population flow over whole runs**: the recorded `n_alive` and `new_deaths` of consecutive rows are linked by the
+    births of the step, for every event history and run length:
+    `n_alive[t] + new_deaths[t] = n_alive[t-1] + births[t]` (with the initial number of active agents before the first). -/
+def flowOK : Nat → List Row → List Events → Prop
+  | _, [], [] => True
+  | prev, r :: rs, e :: es => r.nAlive + r.newDeaths = prev + e.births ∧ flowOK r.nAlive rs es
+  | _, _, _ => False
+
+theorem run_flow (evs : List Events) : ∀ (s : Sim), (∀ a ∈ s.pop, Clean a) →
+    ∃ rs : List Row, (run s evs).rows = s.rows ++ rs ∧ flowOK (nPresent s.pop) rs evs ∧
+      (∀ a ∈ (run s evs).pop, Clean a) := by
+  induction evs with
+  | nil => intro s h; exact ⟨[], by simp [run], trivial, h⟩
+  | cons e es ih =>
+      intro s h
+      obtain ⟨r, hr, hflow, hn, hc⟩ := simStep_flow s e h
+      obtain ⟨rs, hrs, hfl, hcl⟩ := ih (simStep s e) hc
+      refine ⟨r :: rs, ?_, ⟨hflow, by rw [← hn]; exact hfl⟩, hcl⟩
+      show (run (simStep s e) es).rows = _
+      rw [hrs, hr, List.append_assoc]; rfl
+
+
 end StarsimModel.SimCore
